@@ -65,6 +65,12 @@ static void build_alphabet(void) {
     /* bridged Discover: the arbiter keys on the real source */
     EV[NEV++] = ev_discover(0, ST_M1, ST_BR, 0x1234, 1);
     EV[NEV++] = ev_discover(1, ST_M2, ST_BR, 0x1234, 1);
+    /* bridged commands (real source != Ethernet source): the mapper's identity is its real source */
+    EV[NEV++] = ev_qlt(0, ST_M1, ST_BR, 3, 0x0E, 0);
+    EV[NEV++] = ev_qlt(1, ST_M2, ST_BR, 4, 0x11, 0);
+    EV[NEV++] = ev_query(0, ST_M1, ST_BR, 2);
+    EV[NEV++] = ev_emit1(0, ST_M2, ST_BR, 7, 1, 0, ST_S0, ST_PEER);
+    EV[NEV++] = ev_discover(0, ST_BR, ST_BR, 0x1234, 1);      /* the bridge itself as a station */
 }
 
 /* ------------------------------------------------------------- sweep mode */
